@@ -172,6 +172,14 @@ func genC07(g *G) {
 	for _, s := range []string{"", " ", "\t", "#", " # x", "1.2.3.4", "localhost", "\r", "\xff\xfe", "1.2.3.4 a b c", "1.2.3.4   tail", "1.2.3.4\ta\tb", "1.2.3.4 a#b c"} {
 		emit(s)
 	}
+	// adjacent names that are equal under case folding while only one of them is valid
+	k63 := strings.Repeat("k", 63)
+	for _, pair := range [][2]string{{"XN--0.example", "xn--0.example"}, {"xn--0.example", "XN--0.example"}, {k63 + ".example", k63[:62] + "\u212a.example"},
+		{k63[:62] + "\u212a.example", k63 + ".example"}, {"a.example", "A.example"}, {"s.example", "\u017f.example"}, {"xn--abc-.com", "XN--ABC-.com"}} {
+		emit("1.2.3.4 " + pair[0] + " " + pair[1])
+		emit("1.2.3.4 ok.example " + pair[0] + " " + pair[1] + " tail.example")
+		emit("1.2.3.4 " + pair[0] + " x " + pair[1])
+	}
 	// rare shapes: names that are long in UTF-8 but short in Punycode (and the other way round),
 	// addresses whose text is long because of the zone, very long lines
 	longNames := append([]string{strings.Repeat(strings.Repeat("я", 30)+".", 4) + strings.Repeat("я", 30), strings.Repeat("é", 57) + ".com"}, longIDNNames()[:12]...)
